@@ -28,7 +28,25 @@ for m in sorted(glob.glob(os.path.join(V, "seeded", "*", "meta.json"))):
     seeded.append("| %s | %s | %s | %s | %s |" % (d["name"], d["property"], esc(d.get("needs_to_manifest", ""))[:160],
                                                  ", ".join("%s: %s" % (k, v["verdict"]) for k, v in d.get("checks", {}).items()),
                                                  esc(d.get("missed_at_first", ""))))
-tables = {"FIXED": "\n".join(fixed), "OPEN": "\n".join(openf), "SEEDED": "\n".join(seeded)}
+import ast
+asbuilt = ["| check | monitors (module docstring) | case rule and distinct / non-trivial criteria | cases quick / thorough | REQUIRED monitor counters (else exit 2) |", "|---|---|---|---|---|"]
+for k in range(1, 21):
+    src = open(os.path.join(V, "harness", "props", "c%02d.py" % k)).read()
+    tree = ast.parse(src)
+    vals = {}
+    for node in tree.body:
+        if isinstance(node, ast.Assign) and isinstance(node.targets[0], ast.Name) and node.targets[0].id in ("RULE", "REQUIRED"):
+            try:
+                vals[node.targets[0].id] = ast.literal_eval(node.value)
+            except ValueError:
+                vals[node.targets[0].id] = "(computed)"
+    doc = (ast.get_docstring(tree) or "").split("\n\n", 1)
+    doc = " ".join((doc[1] if len(doc) > 1 else doc[0]).split())
+    m = re.findall(r'"cases": ([0-9* ]+)', src)
+    cases = [str(eval(x)) for x in m[:2]]
+    asbuilt.append("| C%02d | %s | %s | %s | %s |" % (k, esc(doc)[:700], esc(vals.get("RULE", ""))[:700], " / ".join(reversed(cases)),
+                                                      esc(", ".join("%s>=%s" % kv for kv in vals.get("REQUIRED", {}).items()) if isinstance(vals.get("REQUIRED"), dict) else "")))
+tables = {"FIXED": "\n".join(fixed), "OPEN": "\n".join(openf), "SEEDED": "\n".join(seeded), "ASBUILT": "\n".join(asbuilt)}
 p = os.path.join(V, "DESIGN.md")
 s = open(p).read()
 for k, t in tables.items():
